@@ -24,7 +24,9 @@ def crate_dir(rel):
         shutil.rmtree(dst)
     shutil.copytree(src, dst, ignore=shutil.ignore_patterns("target", "Cargo.lock"))
     toml = os.path.join(dst, "Cargo.toml")
-    open(toml, "w").write(open(toml).read().replace('"/repo/src/cwe_checker_lib"', '"%s/src/cwe_checker_lib"' % REPO))
+    text = open(toml).read().replace('"/repo/src/cwe_checker_lib"', '"%s/src/cwe_checker_lib"' % REPO)
+    with open(toml, "w") as f:
+        f.write(text)
     return dst
 
 
